@@ -37,6 +37,10 @@ CONFIGS = [
     ("tree2", "MC_Flurry", "MC_tree2.cfg", {"C10", "C01"}, "ok", "thorough", ["TfReval", "XStoreHi"]),
     ("tree3", "MC_Flurry", "MC_tree3.cfg", {"C10", "C05"}, "ok", "quick", ["TfReval", "XReval"]),
     ("tree3_mutant", "MC_Flurry", "MC_tree3_mutant.cfg", {"C10"}, "ResizeSafe", "quick", []),
+    # clear() against a resize that is in the middle of a re-populated bin (finding F8): the fixed clear() waits for the
+    # publication (CLRWAIT); the pinned one retires nodes / values still reachable from the current table
+    ("clr3", "MC_Flurry", "MC_clr3.cfg", {"C03", "C05"}, "ok", "quick", ["ClrWait", "ClrReval"]),
+    ("clr3_pinned", "MC_Flurry", "MC_clr3_pinned.cfg", {"C03"}, "ClearSafe", "quick", []),
     ("clr1", "MC_Flurry", "MC_clr1.cfg", {"C05", "C10"}, "ok", "quick", ["ClrReval", "XStoreFwd"]),
     ("clr2", "MC_Flurry", "MC_clr2.cfg", {"C05", "C07"}, "ok", "quick", ["ClrReval", "ItYield"]),
     # reserve() / try_presize racing the lazy initialisation and an insert (null table, DCAP = 2, one resize)
@@ -68,7 +72,7 @@ def run_for(pid, tier, workers=6):
             continue
         if ctier == "thorough" and tier != "thorough":
             continue
-        want_cov = bool(must) and pid in ("C01", "C05", "C07", "C10", "C11", "C13", "C14")
+        want_cov = bool(must) and pid in ("C01", "C03", "C05", "C07", "C10", "C11", "C13", "C14")
         if expect == "sim":
             r = lib.run_tlc(module, cfg=cfg, workers=workers, timeout=1500, simulate=300000, depth=150, xmx="8g")
             if "Error:" in r["out"] and "violated" in r["out"]:
@@ -78,7 +82,7 @@ def run_for(pid, tier, workers=6):
             continue
         r = lib.run_tlc(module, cfg=cfg, workers=workers, timeout=3600, coverage=want_cov, xmx="8g")
         ok = "No error has been found" in r["out"]
-        viol = re.findall(r"Invariant (\w+) is violated", r["out"])
+        viol = re.findall(r"(?:Invariant|Action property) (\w+) is violated", r["out"])
         entry = {"states_generated": r["states"], "distinct_states": r["distinct"], "wall_s": round(r["wall"], 1), "expect": expect}
         if r["timeout"]:
             raise lib.ToolError("TLC timed out on %s" % cfg)
